@@ -74,6 +74,10 @@ pub struct HubInner {
     /// with r > 0 a message for the k-th slot of a window is delayed by (3 - k) * r, so that
     /// votes / certificates for later slots of a window overtake those for earlier ones.
     pub a2a_reorder_ms: u64,
+    /// deviation-bounded exploration: the k-th consensus packet routed (per run, in routing
+    /// order) gets the given extra delay in ms
+    pub a2a_routed: u64,
+    pub deviations: BTreeMap<u64, u64>,
 }
 
 pub struct Hub {
@@ -99,6 +103,8 @@ impl Hub {
                 record_consensus: true,
                 start: tokio::time::Instant::now(),
                 a2a_reorder_ms: 0,
+                a2a_routed: 0,
+                deviations: BTreeMap::new(),
             }),
         })
     }
@@ -144,6 +150,13 @@ impl Hub {
                     ConsensusMessage::Vote(v) => v.slot().inner(),
                 };
                 d += Duration::from_millis((3 - slot % 4) * g.a2a_reorder_ms);
+            }
+        }
+        if chan_of(to_port) == CH_A2A && from != to {
+            let k = g.a2a_routed;
+            g.a2a_routed += 1;
+            if let Some(extra) = g.deviations.get(&k) {
+                d += Duration::from_millis(*extra);
             }
         }
         let Some(tx) = g.inboxes.get(&to_port).cloned() else {
